@@ -1096,6 +1096,7 @@ def normalise_function(fnode, known_locals, known_spellings=()):
         fn = sink_common_tail(known_locals, keep)(fn)
         if ast.dump(fn) != before:
             fn = elif_to_ifs(fn)
+    fn = guards_to_else(fn)
     fn = reduce_to_loop(fn)
     fn = update_dictcomp_to_loop(fn)
     fn = fuse_collect_loops(fn)
@@ -1184,6 +1185,17 @@ def reduce_to_loop(fnode):
                 s_ = blk[i]
                 v = s_.value if isinstance(s_, (ast.Assign, ast.Return)) else None
                 if isinstance(v, ast.Call) and norm(v.func) in ('reduce', 'functools.reduce') and len(v.args) == 3 and \
+                        isinstance(v.args[0], ast.Name) and not v.keywords and v.args[0].id not in \
+                        {m.id for m in ast.walk(fn) if isinstance(m, ast.Name) and isinstance(m.ctx, ast.Store)}:
+                    # a named two-argument function: reduce(f, S, I) is reduce(lambda a, x: f(a, x), S, I)
+                    f_ = v.args[0]
+                    v.args[0] = ast.copy_location(ast.Lambda(
+                        args=ast.arguments(posonlyargs=[], args=[ast.arg(arg='acc__'), ast.arg(arg='item__')], kwonlyargs=[],
+                                           kw_defaults=[], defaults=[]),
+                        body=ast.Call(func=f_, args=[ast.Name(id='acc__', ctx=ast.Load()), ast.Name(id='item__', ctx=ast.Load())],
+                                      keywords=[])), f_)
+                    ast.fix_missing_locations(v.args[0])
+                if isinstance(v, ast.Call) and norm(v.func) in ('reduce', 'functools.reduce') and len(v.args) == 3 and \
                         isinstance(v.args[0], ast.Lambda) and len(v.args[0].args.args) == 2 and not v.keywords:
                     lam, seq, init = v.args
                     a, x = (p.arg for p in lam.args.args)
@@ -1210,6 +1222,37 @@ def reduce_to_loop(fnode):
                     i += len(new)
                     continue
                 i += 1
+    ast.fix_missing_locations(fn)
+    return fn
+
+
+def guards_to_else(fnode):
+    """... if c: A ; return R         ->     ... if c: A
+       REST ; return R                           else: REST
+                                                 return R
+    at the top level of a function whose last statement is `return R` (R a plain name): the two forms run the same statements
+    in the same order on every path.  The rules that compare the arms of a case distinction then see the arms."""
+    fn = copy.deepcopy(fnode)
+    body = fn.body
+    if not (len(body) >= 3 and isinstance(body[-1], ast.Return) and isinstance(body[-1].value, ast.Name)):
+        return fn
+    R = body[-1].value.id
+
+    def conv(stmts):
+        for i, s_ in enumerate(stmts):
+            if isinstance(s_, ast.If) and not s_.orelse and s_.body and isinstance(s_.body[-1], ast.Return) and \
+                    isinstance(s_.body[-1].value, ast.Name) and s_.body[-1].value.id == R and \
+                    not any(isinstance(x, ast.Return) for b in s_.body[:-1] for x in ast.walk(b)):
+                rest = conv(stmts[i + 1:])
+                if not rest:
+                    return stmts
+                new = ast.copy_location(ast.If(test=s_.test, body=s_.body[:-1] or [ast.copy_location(ast.Pass(), s_)],
+                                               orelse=rest), s_)
+                return stmts[:i] + [new]
+        return stmts
+    new_body = conv(body[:-1])
+    if len(new_body) != len(body) - 1:
+        fn.body = new_body + [body[-1]]
     ast.fix_missing_locations(fn)
     return fn
 
